@@ -3,7 +3,8 @@
 (* consensus queues, chain info and staking flags; C04 / C06 / C13 monitors on every step.          *)
 EXTENDS ConsensusQueue, Json
 Trace == ndJsonDeserialize("trace.ndjson")
-Shares5 == <<5000000, 3000001, 1000002, 1000000, 0>>   \* raw shares of the driver's world (see harness/drivers/cqueue)
+Shares5 == <<5000000, 3000001, 1000002, 1000000, 0>>
+Shares4 == <<5000000, 3000001, 1000002, 1000000>>   \* raw shares of the driver's world (see harness/drivers/cqueue)
 VARIABLES l, sigok   \* sigok: [id -> TRUE iff every stored signature verified against the current bytes]
 tvars == <<vars, l, sigok>>
 
